@@ -634,10 +634,24 @@ class ComponentState(object):
             (str) An experiment.codes.restartCode
         '''
 
-        if not self.engine.isShutdown:
-            return self.engine.restart(reason=reason, code=code)
-        else:
+        # VV: finish() does not shut down the engine of a migratable component: also look at what finish() recorded
+        def finished():
+            return self._finishedCalled and self.isAlive() is False
+
+        if self.engine.isShutdown or finished():
             raise experiment.runtime.errors.CannotRestartShutdownEngineError(self.specification.reference)
+
+        retval = self.engine.restart(reason=reason, code=code)
+
+        if retval == experiment.model.codes.restartCodes["RestartInitiated"] and finished():
+            # VV: finish() was called while the engine was preparing the restart (e.g. while the restart hook was running)
+            # and it left the engine alone (migratable component): abandon the launch that restart() just armed
+            self.log.info("finish() was called for %s while its engine was restarting - will stop the engine" %
+                          self.specification.reference)
+            self.engine.kill()
+            retval = experiment.model.codes.restartCodes["RestartCouldNotInitiate"]
+
+        return retval
 
     @property
     def isStaged(self):
